@@ -75,7 +75,7 @@ def run(tier):
     om = vlib.model_check("pdu/OptionPool", "OptionPool_bfs.cfg", timeout=900)
     ob, _ = vlib.tlc_generate("pdu/OptionPool", "OptionPool_bfs.cfg", timeout=900)
     osim, _ = vlib.tlc_generate("pdu/OptionPool", "OptionPool_sim.cfg", simulate=300 if quick else 5000, depth=11, workers=4, timeout=900)
-    osim = sorted({vlib.canon_hash(s): s for s in osim}.values(), key=vlib.canon_hash)[: (3000 if quick else 60000)]
+    osim = sorted({vlib.canon_hash(s): s for s in osim}.values(), key=vlib.canon_hash)[: (3000 if quick else 20000)]
     if quick:
         ob = ob[vlib.seed() % 4::4]
     po = vlib.Pipeline(PROP, "option_pool", "pdu/OptionPoolTrace", "OptionPoolTrace.cfg", harness_args=["--batch", "100"])
